@@ -219,7 +219,7 @@ func resInstances(tier string) []Instance {
 					continue
 				}
 				bound := 1
-				if thorough(tier) || (buf == 0 && (e == "crash" || e == "send-fails" || e == "cancel-then-answer" || e == "cancel-while-answering")) {
+				if thorough(tier) || (buf == 0 && (e == "crash" || e == "send-fails" || e == "cancel-then-answer" || (e == "cancel-while-answering" && world.IsStream(kd.kind)))) {
 					bound = 2
 				}
 				p := resParams{kind: kd.kind, nsw: kd.nsw, ending: e, rounds: 2, buf: buf}
